@@ -35,12 +35,14 @@ class C05Monitor(simfarm.Monitor):
         self.executing_dependents_wiped = 0
         self.nontrivial = 0
         self.s0 = None
+        self.job_in_que = False
 
     def before_res(self, sim, msg):
         self.s0 = None
         if msg.success is True:
             return
         self.s0 = sim.snapshot()
+        self.job_in_que = any(j.tag == msg.jobid for j in sim.sch.que)
         self.org0 = sum(1 for ln in sim.log if ln[0] in ('organize', 'updates'))
         self.ch0 = len(sim.chron_appended)
 
@@ -54,7 +56,17 @@ class C05Monitor(simfarm.Monitor):
         t = msg.incarnation if msg.incarnation else '__all__'
         rel = getattr(sim, 'cur_rel', None)
         if rel is None or rel.key() != (x, t) or rel.state != 'applied':
-            return  # the reply was not applied at all: C03's clause result-dropped
+            # the reply was not applied at all.  When its node had already left the queue that
+            # is C03's recorded finding (purge-forgets-executing-descendant); a failure that is
+            # ignored although its node is queued is neither recorded nor contained
+            mine = [r for r in sim.releases if r.key() == (x, t) and r.state == 'replied' and r.epoch == sim.epoch]
+            if self.job_in_que and mine:
+                sim.violation(
+                    'history-recorded',
+                    f'{x}[{t}] {msg_status(msg)} reply was ignored: nothing recorded in the execution history, '
+                    'nothing withdrawn from its dependents',
+                )
+            return
         self.checked += 1
         desc = sim.ref.desc.get(x, set())
         names = ('todo', 'doing', 'do')
